@@ -480,8 +480,55 @@ Section Structure.
       | Some b =>
         match unmangle b with
         | None => Err EValue
-        | Some j => match check_valid j with Ok _ => Ok j | Err x => Err x end
+        | Some j => match check_valid j with Ok _ => Ok j | Err _ => Err EMissingExt end
         end
       end
+    end.
+
+  (** Histories.  A live extension object keeps two forms of its content: the runtime dictionary
+      ([h_obj], what the DcmMeta API edits in place) and the encoded bytes last produced or read
+      ([h_raw], nibabel's [_raw]).  nibabel re-encodes on every access to the encoded form ([_sync]:
+      [content], [get_sizeondisk], [write_to]), so an edit made after an earlier encoding must still
+      reach the file.  [HEdit c]: the API call left the dictionary equal to [c] (the encoded form is
+      not touched); [HTouch]: something asked for the encoded form; [HSave]: NiftiWrapper.to_filename
+      (validity check, then write); [HLoad]: NiftiWrapper.from_filename of the file written last (an
+      invalid extension in a file is skipped by NiftiWrapper, which then finds none). *)
+  Record hstate := { h_obj : jv; h_raw : str; h_file : option str }.
+  Inductive hop := HEdit (c : jv) | HTouch | HSave | HLoad.
+  Inductive hevent := EvNone | EvSaved (b : str) | EvRefused (x : err) | EvLoaded (r : res jv).
+
+  Definition hstep (s : hstate) (o : hop) : hstate * hevent :=
+    match o with
+    | HEdit c => ({| h_obj := c; h_raw := h_raw s; h_file := h_file s |}, EvNone)
+    | HTouch => ({| h_obj := h_obj s; h_raw := mangle (h_obj s); h_file := h_file s |}, EvNone)
+    | HSave =>
+      match check_valid (h_obj s) with
+      | Err x => (s, EvRefused x)
+      | Ok _ =>
+        let raw := mangle (h_obj s) in
+        match store raw with
+        | None => ({| h_obj := h_obj s; h_raw := raw; h_file := None |}, EvRefused ECrash)
+        | Some b => ({| h_obj := h_obj s; h_raw := raw; h_file := Some b |}, EvSaved b)
+        end
+      end
+    | HLoad =>
+      match h_file s with
+      | None => (s, EvLoaded (Err ECrash))
+      | Some b =>
+        match unmangle b with
+        | None => (s, EvLoaded (Err EValue))
+        | Some j =>
+          match check_valid j with
+          | Ok _ => ({| h_obj := j; h_raw := b; h_file := h_file s |}, EvLoaded (Ok j))
+          | Err _ => (s, EvLoaded (Err EMissingExt))
+          end
+        end
+      end
+    end.
+
+  Fixpoint hrun (s : hstate) (ops : list hop) : hstate * list hevent :=
+    match ops with
+    | [] => (s, [])
+    | o :: r => let (s1, e) := hstep s o in let (s2, es) := hrun s1 r in (s2, e :: es)
     end.
 End Structure.
